@@ -1264,3 +1264,54 @@ func ruleUseBeforeErrCheck(c *Ctx) {
 	c.count("pointer_and_error_results", n)
 	c.floor("library calls returning (pointer, error)", n, 3)
 }
+
+// ruleRecordsIndex (C13): a query result's Records slice has RowsReturned elements. A constant
+// index into it must be 0 and must be governed by a fact that at least one row was returned
+// (RowsReturned == 1 / != 0 / > 0 on the same result, through an if, an early exit or an assertion):
+// anything else indexes past the end on the kernel goroutine.
+func ruleRecordsIndex(c *Ctx) {
+	m := c.coroModel()
+	if m.Err != nil {
+		c.und("model", 0, m.Err.Error())
+		return
+	}
+	info := m.Pk.TypesInfo
+	n := 0
+	occ := map[string]int{}
+	for _, name := range m.Order {
+		cf := m.Funcs[name]
+		ast.Inspect(cf.Decl.Body, func(nd ast.Node) bool {
+			ix, ok := nd.(*ast.IndexExpr)
+			if !ok {
+				return true
+			}
+			se, ok := ast.Unparen(ix.X).(*ast.SelectorExpr)
+			if !ok || se.Sel.Name != "Records" {
+				return true
+			}
+			if tv, ok := info.Types[se.X]; !ok || namedPkgPath(tv.Type) != pkgTAio || !strings.HasPrefix(namedName(tv.Type), "Query") {
+				return true
+			}
+			tv, isConst := info.Types[ix.Index]
+			if !isConst || tv.Value == nil {
+				return true // indexed by a loop variable over the same records
+			}
+			n++
+			occ[name]++
+			key := fmt.Sprintf("records-index/%s#%d", name, occ[name])
+			base := cf.Env.prov(se.X)
+			okIdx := tv.Value.ExactString() == "0"
+			governed := false
+			for _, a := range cf.Env.enclosingConds(cf.Decl.Body, ix) {
+				switch a {
+				case "(" + base + ".RowsReturned == 1)", "(" + base + ".RowsReturned != 0)", "(0 < " + base + ".RowsReturned)", "(1 <= " + base + ".RowsReturned)":
+					governed = true
+				}
+			}
+			c.check(okIdx && governed, key, ix.Pos(), "Records[0] read only where a row was returned", "Records["+tv.Value.ExactString()+"] of "+base+" is read without a governing fact that a row was returned (or with an index other than 0): the index is out of range on the kernel goroutine")
+			return true
+		})
+	}
+	c.count("constant_record_indexes", n)
+	c.floor("constant indexes into result records", n, 15)
+}
